@@ -148,14 +148,12 @@ def electrostatic_potential(
     hartree_potential *= one_density_matrix[:, :, None]
     hartree_potential = np.sum(hartree_potential, axis=(0, 1))
 
-    # silence warning for dividing by zero
-    old_settings = np.seterr(divide="ignore")
     distances = np.sum((points[:, :, None] - nuclear_coords.T[None, :, :]) ** 2, axis=1) ** 0.5
-    external_potential = nuclear_charges[None, :] / distances
+    # silence warning for dividing by zero (settings are restored even if an error is raised)
+    with np.errstate(divide="ignore"):
+        external_potential = nuclear_charges[None, :] / distances
     # zero out potentials of elements that are too close to the nucleus
     external_potential[distances < threshold_dist] = 0
-    # restore old settings
-    np.seterr(**old_settings)
     # sum over potentials for each dimension
     external_potential = -np.sum(external_potential, axis=1)
 
